@@ -123,3 +123,17 @@ pub assume_specification<'a> [<Cow<'a, str> as VxS>::vx_s] (s: &Cow<'a, str>) ->
 pub assume_specification [vx_lit] (s: &'static str) -> (r: String) ensures r@ == s@;
 pub assume_specification [vx_cat] (a: String, b: String) -> (r: String) ensures r@ == a@ + b@;
 ''')
+
+
+def for_each_mut(U):
+    """R26 support: `E.iter_mut().for_each(F)` is read as a call of this function.  ASSUMED (std semantics of slice::IterMut +
+    Iterator::for_each): F is called once on every element, in place; the vector keeps its length."""
+    U.add('''
+#[verifier::external_body]
+pub fn vx_for_each_mut<T, F: FnMut(&mut T)>(v: &mut Vec<T>, f: F)
+    requires forall |x: &mut T| #[trigger] call_requires(f, (x,)),
+    ensures final(v)@.len() == old(v)@.len(),
+        forall |i: int| #![trigger old(v)@[i]] 0 <= i < old(v)@.len() ==> exists |x: &mut T| #![trigger call_ensures(f, (x,), ())]
+            *x == old(v)@[i] && *final(x) == final(v)@[i] && call_ensures(f, (x,), ()),
+{ v.iter_mut().for_each(f) }
+''')
